@@ -337,6 +337,7 @@ package connect
 //@   ensures |old(rest(r.reader))| == 0 && termerr(r.reader) == io.EOF ==> res != nil && Is(res, io.EOF)      // label: clean-end-is-eof
 //@   ensures res != nil && Is(res, io.EOF) && !coded(termerr(r.reader)) && !Is(termerr(r.reader), io.EOF) ==> false   // label: no-eof-from-failed-transport   // tags: C04
 //@   ensures res != nil && Is(res, io.EOF) && termerr(r.reader) == io.EOF ==> |old(rest(r.reader))| == 0   // label: eof-only-at-frame-boundary
+//@   ensures res != nil && Is(res, io.EOF) && termerr(r.reader) != io.EOF && !coded(termerr(r.reader)) ==> |old(rest(r.reader))| == 0   // label: a-transport-failure-reads-as-an-end-at-most-at-a-frame-boundary-whatever-its-error-wraps   // tags: C04, C07
 //@   ensures let S := old(rest(r.reader)) in 0 < |S| && |S| < 5 ==> res != nil                                 // label: cut-in-prefix-is-error
 //@   ensures let S := old(rest(r.reader)) in |S| >= 5 && withinLimit(declared(S), r.readMaxBytes) && |S| < 5 + declared(S) ==> res != nil   // label: cut-in-payload-is-error
 //@   ensures let S := old(rest(r.reader)) in |S| >= 5 && r.readMaxBytes > 0 && declared(S) > r.readMaxBytes ==> res != nil && view(env.Data) == old(view(env.Data))   // label: over-limit-rejected-nothing-buffered
@@ -487,6 +488,7 @@ package connect
 //@   ensures res != nil && Is(res, io.EOF) && res != errSpecialEnvelope && termerr(r.reader) == io.EOF ==> |old(rest(r.reader))| == 0   // label: eof-other-than-the-sentinel-only-at-a-clean-end   // tags: C04
 //@   ensures let S := old(rest(r.reader)) in res != nil && Is(res, io.EOF) && termerr(r.reader) == io.EOF ==> |S| == 0 || (completeFrame(r, S) && S[0] != 0 && S[0] != 1)   // label: eof-only-at-clean-end-or-flagged-frame   // tags: C04
 //@   ensures let S := old(rest(r.reader)) in res != nil && Is(res, io.EOF) && !coded(termerr(r.reader)) && !Is(termerr(r.reader), io.EOF) ==> completeFrame(r, S) && S[0] != 0 && S[0] != 1   // label: no-clean-end-when-the-transport-failed   // tags: C04
+//@   ensures let S := old(rest(r.reader)) in res != nil && Is(res, io.EOF) && termerr(r.reader) != io.EOF && !coded(termerr(r.reader)) ==> |S| == 0 || (completeFrame(r, S) && S[0] != 0 && S[0] != 1)   // label: a-transport-failure-reads-as-an-end-at-most-at-a-frame-boundary-whatever-its-error-wraps   // tags: C04, C07
 //@   ensures let S := old(rest(r.reader)) in |S| >= 5 && r.readMaxBytes > 0 && declared(S) > r.readMaxBytes ==> res != nil   // label: oversize-on-the-wire-rejected   // tags: C09
 //@   assert@call((*compressionPool).Decompress#1): arg3 == r.readMaxBytes   // label: every-frame-is-decompressed-under-the-read-limit-flagged-ones-included   // tags: C09
 //@   ensures let S := old(rest(r.reader)) in completeFrame(r, S) && isCompressed(S) && r.compressionPool == nil ==> res != nil && !Is(res, io.EOF)   // label: compressed-without-negotiated-encoding-rejected   // tags: C07, C08
